@@ -86,6 +86,12 @@ fn build_eq_checker(this: TokenStream) -> TokenStream { unimplemented!() }
 //@     |     && sel_ok(&field.hattrs.cmp, CompareOp::PartialEq, &t)
 //@   before |by: &Expr| ## #[verus_spec(r: TokenStream => ensures uses(&r) =~= set![expr_id(by)])]
 //@ end
+// C17: what is asserted follows PartialEq's selection (most specific of partial_eq > eq > partial_ord > ord; `by` exempt, `key` in place of the field)
+//@ fn item_type/compare_op.rs build_eq_assertion
+//@   attr #[verus_verify]
+//@   rewrite R11
+//@   spec r => requires uses(&this) =~= Set::<int>::empty(), ensures uses(&r) =~= eq_assert_uses(cmp)
+//@ end
 //@ fn item_type/compare_op.rs build_eq_expr
 //@   attr #[verus_verify]
 //@   spec r => ensures
